@@ -5,7 +5,10 @@ integer width, f32/f64, bool, char, distinct types, named structs, array types; 
 composed from a deterministic fragment that USES the comptime parameters (arithmetic in T with `T.(..)` casts, wrapping that
 differs per width, `[N]T` locals, loops to N, element stride, struct fields, local aliases / local structs of T, inline header
 references `x: T`, `ys: [3]T`, `p: ^mut T`, `sl: []T`, `rest: ...T`, `-> T` / `-> [3]T` / `-> struct { v: T, .. }`, nested generic
-calls that forward or replace the comptime arguments, generics defined in the imported file that use that file's own scope).
+calls that forward or replace the comptime arguments, generics defined in the imported file that use that file's own scope,
+two type parameters with conversions between them, `comptime D: T` value parameters typed by an earlier type parameter, type-returning
+generics `(comptime T: type, comptime N: usize) -> type { struct {..} }` used from main through `comptime g(..)`, and non-generic
+wrappers in the imported file that request the same instantiation as main).
 Each generic is instantiated 1-4 times with equal and with conflicting comptime arguments (instantiations that differ in exactly
 one argument, distinct type vs underlying type, structurally identical structs), the call sites of all generics interleaved.
 For every distinct instantiation the generator emits the hand-substituted copy (substitution on the generator's AST) and calls
@@ -20,6 +23,7 @@ A rejected program whose copies-only version is accepted is a violation; interna
 """
 import json
 import os
+import re
 import shutil
 import time
 
@@ -29,7 +33,7 @@ from .. import c16_lang as L
 from ..c16_lang import P, I64, U64, USIZE, BOOL, Func, World
 
 RULE = ("one case = one generic function of a generated program with its call sites; program = 2-4 generics (families: num-int, num-float, struct, "
-        "array-type, eq, ints-only; 1-3 comptime parameters in shuffled order, run-time parameters before/after them), each with a random subset of body "
+        "array-type, eq, ints-only, conv = two type parameters, tygen = type-returning generic used from main; 1-3 comptime parameters in shuffled order, run-time parameters before/after them), each with a random subset of body "
         "features and 1-4 call sites following an instantiation pattern (A, AA, AB, ABA, ABAB, ABC, ABCA, AABB; B/C differ from A in exactly one comptime "
         "argument), call sites of all generics shuffled; quick = 250 programs, thorough = 6000; non-trivial = every case (a generic instantiation whose "
         "events were compared with its copy and with the model); distinct = distinct (comptime parameter kinds, body feature set, instantiation pattern incl. "
@@ -38,10 +42,10 @@ ASSUME = ["hand substitution replaces a comptime type parameter by the argument'
           "(`usize.(5)`), a bare literal where a constant is required (array length, comptime argument of a nested call); named constants / comptime "
           "blocks used as arguments are substituted by their value",
           "the copy of a generic defined in the imported file is placed in main.capy with its references to that file's globals qualified (`o.K`)",
-          "wrapping two's-complement arithmetic, IEEE f32/f64 (+ - *), zero default values and natural C-like layout (element stride) are the reference "
+          "wrapping two's-complement arithmetic, IEEE f32/f64 (+ - *), zero default values and natural C-like layout with alignment capped at 8 (element stride) are the reference "
           "semantics of the model; a disagreement of generic AND copy with the model is reported under a separate key (model_mismatch)",
           "features known to crash the compiler (comptime block inside a generic body, inline header reference to a comptime VALUE parameter such as "
-          "`xs: [N]T`, `comptime B: bool` parameters, self-recursive generic calls) are probed once per run with a pinned program and only enter the bulk "
+          "`xs: [N]T`, `comptime B: bool` parameters, `comptime D: T` in a generic of the imported file, self-recursive generic calls, a comptime block as argument inside `comptime g(..)`) are probed once per run with a pinned program and only enter the bulk "
           "generator when that probe passes completely"]
 
 INTS = ["i8", "i16", "i32", "i64", "i128", "isize", "u8", "u16", "u32", "u64", "u128", "usize"]
@@ -100,6 +104,7 @@ def base_world():
 INT_POOL = [P(n) for n in INTS] + [named("D8"), named("DU16"), named("D64"), named("OD", "o"), named("TyA"), named("TyB")]
 FLOAT_POOL = [P("f32"), P("f64"), named("DF32")]
 STRUCT_POOL = [named("SA"), named("SB"), named("SC"), named("SD"), named("OS"), named("OS", "o")]
+CONV_POOL = [P(n) for n in INTS] + [named("TyA"), named("TyB")]
 EQ_POOL = INT_POOL + [P("f32"), P("f64"), P("bool"), P("char"), named("DF32")]
 ARR_ELEMS = [P("i8"), P("i16"), P("u8"), P("i64"), P("u32"), named("D8"), P("u16")]
 # (a, b): b has the same representation as a but is a different type
@@ -159,6 +164,11 @@ def nested_call(b, callee, tmode, src_T, src_expr, height_holder):
     for n, k, t in callee.params:
         if k == "ct":
             args.append(("T", targ))
+        elif k == "cv" and n == "D":
+            if tmode == "fwd" and b.has("D"):
+                args.append(("V", ("cp", "D")))
+            else:
+                args.append(("V", ("n", 2.5 if callee.meta.get("flt") else rng.range(1, 100))))
         elif k == "cv":
             mine = b.cv_type(n)
             if mine is not None and mine == t and rng.chance(2, 3):
@@ -195,6 +205,11 @@ def order_params(rng, cparams, rparams, va):
     """comptime parameters in shuffled order; `base` (and sometimes the first run-time parameter) may come before them"""
     cps = list(cparams)
     rng.shuffle(cps)
+    dps = [c for c in cps if c[0] == "D"]
+    if dps:
+        cps = [c for c in cps if c[0] != "D"]
+        ti = [c[0] for c in cps].index("T")
+        cps.insert(rng.range(ti + 1, len(cps)), dps[0])
     rps = list(rparams)
     basep = ("base", "rt", I64)
     pre, post = [], []
@@ -210,7 +225,7 @@ def order_params(rng, cparams, rparams, va):
     return pre + cps + post + ([va] if va else [])
 
 
-def gen_num(b, flt, earlier):
+def gen_num(b, flt, earlier, leaf=False):
     rng = b.rng
     tk = "f64" if flt else "i64"
     b.cparams.append(("T", "ct", None))
@@ -218,6 +233,8 @@ def gen_num(b, flt, earlier):
         b.cparams.append(("N", "cv", USIZE))
     if rng.chance(1, 2):
         b.cparams.append(("K", "cv", P(rng.pick(CV_TYPES))))
+    if rng.chance(1, 8) and not leaf and (b.home == "main" or b.gates.get("dparam_imported")):
+        b.cparams.append(("D", "cv", T))      # a comptime value parameter whose type is the earlier comptime type parameter
     b.rparams.append(("x", "rt", T))
     acc = var("acc")
     S = b.body
@@ -226,12 +243,20 @@ def gen_num(b, flt, earlier):
     S.append(("assign", acc, bin_("+", bin_("*", acc, tl(c1)), tl(c2))))
     b.trace(tk, acc, "wrap")
     b.feats.append("wrap")
+    if b.has("D"):
+        S.append(("assign", acc, bin_("+", bin_("*", acc, ("cpv", "D")), ("cpv", "D"))))
+        b.trace(tk, acc, "d")
+        b.feats.append("dparam")
     opts = ["k", "loopN", "arrN", "y", "inarr", "ptr", "slice", "va", "alias", "lstruct", "nest", "nestfix", "scope", "cmp", "bits"]
     if b.gates.get("comptime_block"):
         opts.append("ctblock")
     if b.gates.get("inline_len"):
         opts.append("inlen")
+    if leaf:
+        opts = [o for o in opts if o in ("k", "loopN", "arrN", "y", "va", "alias", "lstruct", "scope", "cmp", "bits")]
     chosen = [o for o in opts if rng.chance(1, 3)]
+    if earlier and (leaf == "mid" or (not leaf and rng.chance(1, 2))) and "nest" not in chosen and "nestfix" not in chosen:
+        chosen.insert(rng.below(len(chosen) + 1), rng.pick(["nest", "nestfix"]))
     va = None
     minN = 1
     for o in chosen:
@@ -344,6 +369,8 @@ def gen_num(b, flt, earlier):
             continue
         b.feats.append(o)
     rk = rng.weighted([("T", 6), ("anon", 2), ("arr3", 2), ("void", 1)] + ([] if flt else [("i64", 1)]))
+    if leaf:
+        rk = "T"
     ret, tail = T, acc
     if rk == "anon":
         ret = ("anon", (("v", T), ("w", I64)))
@@ -379,7 +406,7 @@ def gen_struct(b, earlier):
     b.feats.append("fields")
     S.append(("let", "y", T, var("x")))
     minN = 1
-    for o in [o for o in ["fieldwrap", "k", "arrN", "nest", "scope", "ptr"] if rng.chance(1, 2)]:
+    for o in [o for o in ["fieldwrap", "k", "arrN", "nest", "scope", "ptr"] if rng.chance(2 if o == "nest" else 1, 2 if o != "nest" else 3)]:
         if o == "fieldwrap":
             ya, yb = ("fld", var("y"), "a"), ("fld", var("y"), "b")
             S.append(("assign", ya, bin_("+", ya, ya)))
@@ -553,7 +580,7 @@ def gen_ints(b, earlier):
         b.trace("u64", ("len", var("arr")), "arrN.len")
         b.trace("i64", bin_("+", acc, ("idx", var("arr"), bin_("-", ("cpv", "N"), lit(1, USIZE)))), "arrN")
         b.feats.append("arrN")
-    if rng.chance(1, 3):
+    if rng.chance(2, 3):
         cands = [f for f in earlier if nestable(f) and (b.home == "main" or f.home == "o") and not f.meta.get("flt")]
         if cands:
             ft = P(rng.pick(["i16", "u8", "i64", "u32"]))
@@ -568,23 +595,130 @@ def gen_ints(b, earlier):
     return I64, acc, None, {"family": "ints", "ret": "i64", "minN": minN}
 
 
-def gen_function(rng, world, name, home, earlier, gates):
-    family = rng.weighted([("numi", 8), ("numf", 3), ("struct", 4), ("arrt", 2), ("eq", 3), ("ints", 3)])
+def gen_conv(b):
+    """two comptime type parameters: conversions between them"""
+    rng = b.rng
+    U = ("tp", "U")
+    b.cparams += [("T", "ct", None), ("U", "ct", None)]
+    if rng.chance(1, 2):
+        b.cparams.append(("N", "cv", USIZE))
+    b.rparams += [("x", "rt", T), ("y", "rt", U)]
+    S = b.body
+    a_, b_ = var("a"), var("b")
+    S.append(("let", "a", U, ("cast", U, var("x"))))
+    S.append(("assign", a_, bin_("+", bin_("*", a_, tl(rng.range(2, 9), U)), var("y"))))
+    b.trace("i64", a_, "a")
+    S.append(("let", "b", T, ("cast", T, a_)))
+    S.append(("assign", b_, bin_("+", bin_("*", b_, tl(rng.range(2, 9))), var("x"))))
+    b.trace("i64", b_, "b")
+    b.feats.append("conv")
+    minN = 1
+    if b.has("N"):
+        S.append(("let", "arr", ("arr", ("cp", "N"), U), None))
+        S.append(("let", "brr", ("arr", ("cp", "N"), T), None))
+        S.append(("let", "i", USIZE, lit(0, USIZE)))
+        S.append(("while", bin_("<", var("i"), ("cpv", "N")),
+                  [("assign", ("idx", var("arr"), var("i")), bin_("+", a_, ("cast", U, var("i")))),
+                   ("assign", ("idx", var("brr"), var("i")), ("cast", T, ("idx", var("arr"), var("i")))),
+                   ("assign", a_, bin_("+", bin_("*", a_, tl(3, U)), ("cast", U, ("idx", var("brr"), var("i"))))),
+                   ("assign", var("i"), bin_("+", var("i"), lit(1, USIZE)))]))
+        b.trace("i64", a_, "arrN")
+        b.feats.append("arrN")
+        if rng.chance(1, 2):
+            minN = 2
+            S.append(("stride", "sd", "arr"))
+            S.append(("stride", "se", "brr"))
+            b.trace("u64", var("sd"), "stride.U")
+            b.trace("u64", var("se"), "stride.T")
+            b.feats.append("stride")
+    if rng.chance(1, 2):
+        S.append(("ltype", "LP", ("structdecl", (("t", T), ("u", U)))))
+        S.append(("let", "lp", ("lnamed", "LP"), ("slit", ("lnamed", "LP"), (("t", b_), ("u", a_)))))
+        S.append(("assign", ("fld", var("lp"), "u"), bin_("+", ("fld", var("lp"), "u"), ("cast", U, ("fld", var("lp"), "t")))))
+        S.append(("assign", a_, ("fld", var("lp"), "u")))
+        b.trace("i64", a_, "lstruct")
+        b.feats.append("lstruct")
+    rk = rng.pick(["U", "T", "anon"])
+    b.feats.append("ret_" + rk)
+    if rk == "U":
+        ret, tail = U, a_
+    elif rk == "T":
+        ret, tail = T, b_
+    else:
+        ret = ("anon", (("v", T), ("w", U)))
+        tail = ("anonlit", (("v", b_), ("w", a_)), ret)
+    return ret, tail, None, {"family": "conv", "ret": rk, "minN": minN}
+
+
+def gen_tygen(b):
+    """a type-generating generic: (comptime T: type, comptime N: usize) -> type { struct { .. } }"""
+    rng = b.rng
+    b.cparams += [("T", "ct", None), ("N", "cv", USIZE)]
+    buf = ("buf", ("arr", ("cp", "N"), T))
+    shape = rng.below(3)
+    fields = [(buf, ("len", USIZE), ("tag", T)), (("tag", T), ("len", USIZE), buf), (buf, ("tag", T))][shape]
+    b.feats += ["tygen", f"shape{shape}"]
+    return P("type"), ("tyval", ("anon", tuple(fields))), None, {"family": "tygen", "ret": "type", "minN": 2, "has_len": shape != 2}
+
+
+def tygen_site(it, s, kind, B, pfx, c):
+    """statements of main that use the type made by the generator (kind g) or by its substituted copy (kind c)"""
+    f = s.f
+    ct_ = s.binding["T"][1]
+    flt = it.resolve(ct_, {})[0] == "float"
+    tk = "f64" if flt else "i64"
+    if kind == "g":
+        args = tuple(s.spelled[n] for n, k, t in f.params)
+        tg = ("tgcall", (f.name, f.home), args)
+    else:
+        tg = ("tgcall", (s.copy.name, "main"), ())
+    A, a = ("lnamed", pfx + "A"), var(pfx + "a")
+    buf = ("fld", a, "buf")
+    i_, s_ = var(pfx + "i"), var(pfx + "s")
+    el = ("idx", buf, i_)
+    v0 = mkval(None, it, ct_, s.sels)
+    one = lit(1, USIZE)
+    st = [("ltype", pfx + "A", tg), ("let", pfx + "a", A, None), ("let", pfx + "i", USIZE, lit(0, USIZE)),
+          ("while", bin_("<", i_, ("len", buf)),
+           [("assign", el, bin_("+", v0, ("cast", ct_, i_))), ("assign", el, bin_("*", el, el)), ("assign", i_, bin_("+", i_, one))]),
+          ("trace", B + 1, "u64", ("len", buf), "tygen.len"),
+          ("let", pfx + "s", ct_, tl(0, ct_)), ("assign", i_, lit(0, USIZE)),
+          ("while", bin_("<", i_, ("len", buf)),
+           [("assign", s_, bin_("+", bin_("*", s_, tl(3, ct_)), el)), ("assign", i_, bin_("+", i_, one))]),
+          ("trace", B + 2, tk, s_, "tygen.sum"),
+          ("assign", ("fld", a, "tag"), bin_("+", s_, ("idx", buf, lit(0, USIZE)))),
+          ("trace", B + 3, tk, ("fld", a, "tag"), "tygen.tag")]
+    if f.meta.get("has_len"):
+        st += [("assign", ("fld", a, "len"), bin_("*", ("len", buf), lit(2, USIZE))), ("trace", B + 4, "u64", ("fld", a, "len"), "tygen.lenfield")]
+    st += [("let", pfx + "two", ("arr", ("n", 2), A), None), ("stride", pfx + "sd", pfx + "two"), ("trace", B + 5, "u64", var(pfx + "sd"), "tygen.stride")]
+    return st
+
+
+def gen_function(rng, world, name, home, earlier, gates, leaf=False):
+    family = rng.weighted([("numi", 8), ("numf", 3), ("struct", 4), ("arrt", 2), ("eq", 3), ("ints", 3), ("conv", 3), ("tygen", 2)])
+    if leaf:
+        family = rng.weighted([("numi", 4), ("numf", 1)])
     b = Builder(rng, world, name, home, family, gates)
     if family in ("numi", "numf"):
-        ret, tail, va, meta = gen_num(b, family == "numf", earlier)
+        ret, tail, va, meta = gen_num(b, family == "numf", earlier, leaf)
     elif family == "struct":
         ret, tail, va, meta = gen_struct(b, earlier)
     elif family == "arrt":
         ret, tail, va, meta = gen_arrt(b)
     elif family == "eq":
         ret, tail, va, meta = gen_eq(b)
+    elif family == "conv":
+        ret, tail, va, meta = gen_conv(b)
+    elif family == "tygen":
+        ret, tail, va, meta = gen_tygen(b)
     else:
         ret, tail, va, meta = gen_ints(b, earlier)
     height = 1 + max(c.height for c in b.callees) if b.callees else 0
     body = fix_baseoff(b.body, height)
     tail = fix_baseoff(tail, height) if tail is not None else None
     params = order_params(rng, b.cparams, b.rparams, va)
+    if family == "tygen":
+        params = [p_ for p_ in params if p_[0] != "base"]
     meta.update({"feats": sorted(set(b.feats)), "home": home, "minN": max(meta.get("minN", 1), b.minN_req)})
     return Func(name, home, params, ret, body, tail, height, meta)
 
@@ -604,6 +738,10 @@ def type_pool(f):
         return STRUCT_POOL
     if fam == "eq":
         return EQ_POOL
+    if fam == "conv":
+        return CONV_POOL
+    if fam == "tygen":
+        return INT_POOL + FLOAT_POOL
     if fam == "arrt":
         return None
     return None
@@ -629,6 +767,21 @@ def pick_cv(rng, f, n, t, other=None):
     return 0 if other else 1
 
 
+def pick_d(rng, it, t, other=None):
+    """value of a `comptime D: T` argument for the closed type t"""
+    ct = it.resolve(t, {})
+    if ct[0] == "float":
+        cands = [2.5, 0.125, 100.0, 3.0, 1000.5, 7.75]
+    else:
+        hi = min((1 << (ct[1] - 1)) - 1 if ct[2] else (1 << ct[1]) - 1, 1 << 62)
+        cands = [hi, hi - 1, hi // 2 + 1, 100, 7, 1, 0, hi // 3, 50]
+    for _ in range(20):
+        v = rng.pick(cands)
+        if v != other:
+            return v
+    return cands[0] if cands[0] != other else cands[1]
+
+
 def pick_type(rng, f, other=None, how=None):
     if f.meta["family"] == "arrt":
         for _ in range(20):
@@ -650,11 +803,14 @@ def pick_type(rng, f, other=None, how=None):
     return pool[0]
 
 
-def vary(rng, f, a):
+def vary(rng, it, f, a):
     """-> (binding that differs from `a` in exactly one comptime argument, description of the difference)"""
     cps = [(n, k, t) for n, k, t in f.params if k in ("ct", "cv")]
     n, k, t = rng.pick(cps)
     b = dict(a)
+    if n == "D":
+        b[n] = ("V", pick_d(rng, it, a["T"][1], a[n][1]), t)
+        return b, n
     if k == "ct":
         if f.meta["family"] == "arrt":
             how = rng.pick(["len", "elem", "any"])
@@ -662,6 +818,10 @@ def vary(rng, f, a):
             how = "twin" if rng.chance(1, 4) else "any"
         nt = pick_type(rng, f, a[n][1], how)
         b[n] = ("T", nt)
+        if "D" in a:
+            # the old value need not fit the new type
+            b["D"] = ("V", pick_d(rng, it, nt), a["D"][2])
+            return b, "T+D"
         twin = how == "twin" and repr(a[n][1]) in TWINS and TWINS[repr(a[n][1])] == nt
         return b, ("T:twin" if twin else f"T:{how}" if f.meta["family"] == "arrt" else "T")
     b[n] = ("V", pick_cv(rng, f, n, t, a[n][1]), t)
@@ -674,6 +834,8 @@ def spell(rng, world, k, val, t, in_main=True):
         return ("T", val)
     if t == BOOL:
         return ("V", ("b", bool(val)))
+    if t[0] == "tp":
+        return ("V", ("n", val))
     if rng.chance(1, 3):
         for (home, name), (ct, cv) in world.consts.items():
             if home == "main" and ct == t and cv == val and name != "OK":
@@ -740,7 +902,45 @@ def leaves(it, ct, e, out):
 
 
 class Site:
-    __slots__ = ("f", "binding", "label", "spelled", "sels", "nva", "copy", "index", "diff")
+    __slots__ = ("f", "binding", "label", "spelled", "sels", "nva", "copy", "index", "diff", "wrapper")
+
+    def __init__(self):
+        self.wrapper = None
+
+
+def mentions_main(t):
+    if isinstance(t, tuple):
+        if len(t) == 3 and t[0] == "named" and t[2] == "main":
+            return True
+        return any(mentions_main(x) for x in t)
+    return False
+
+
+def make_wrapper(f, binding, name):
+    """non-generic function of the imported file that performs the generic call there: the same instantiation is then requested from two files"""
+    if f.home != "o" or any(k == "va" for _, k, _ in f.params):
+        return None
+    ret = L.subst_type(f.ret, binding) if f.ret is not None else None
+    if ret is not None and (ret[0] == "anon" or mentions_main(ret)):
+        return None
+    params, args = [], []
+    for n, k, t in f.params:
+        if k == "ct":
+            if mentions_main(binding[n][1]):
+                return None
+            args.append(("T", binding[n][1]))
+        elif k == "cv":
+            args.append(("V", ("b", bool(binding[n][1])) if t == BOOL else ("n", binding[n][1])))
+        else:
+            ct_ = L.subst_type(t, binding)
+            if mentions_main(ct_):
+                return None
+            params.append((n, "rt", ct_))
+            args.append(("E", var(n)))
+    call = ("call", (f.name, "o"), tuple(args))
+    if ret is None:
+        return Func(name, "o", params, None, [("expr", call)], None, f.height, {"wrapper": True})
+    return Func(name, "o", params, ret, [], call, f.height, {"wrapper": True})
 
 
 def binding_key(f, b):
@@ -755,11 +955,12 @@ def gen_program(seed, idx, gates, nfuncs=None):
     nf = nfuncs or rng.range(2, 4)
     for i in range(nf):
         home = "o" if rng.chance(1, 3) else "main"
-        f = gen_function(rng, w, f"g{i}", home, generics, gates)
+        f = gen_function(rng, w, f"g{i}", home, generics, gates, leaf=(i == 0 and rng.chance(1, 2)) or ("mid" if (i == 1 and nf >= 3 and nestable(generics[0]) and rng.chance(1, 2)) else False))
         w.add_func(f)
         generics.append(f)
     sites = []
     copies = {}
+    wrappers = {}
     cases = []
     for f in generics:
         pat = rng.weighted(PATTERNS)
@@ -767,15 +968,17 @@ def gen_program(seed, idx, gates, nfuncs=None):
         for n, k, t in f.params:
             if k == "ct":
                 a[n] = ("T", pick_type(rng, f))
+            elif k == "cv" and n == "D":
+                a[n] = ("V", pick_d(rng, it, a["T"][1]), t)
             elif k == "cv":
                 a[n] = ("V", pick_cv(rng, f, n, t), t)
         binds = {"A": a}
         diffs = []
         if "B" in pat:
-            binds["B"], d = vary(rng, f, a)
+            binds["B"], d = vary(rng, it, f, a)
             diffs.append(d)
         if "C" in pat:
-            binds["C"], d = vary(rng, f, binds["B"] if rng.chance(1, 2) else a)
+            binds["C"], d = vary(rng, it, f, binds["B"] if rng.chance(1, 2) else a)
             diffs.append(d)
         share_sel = rng.chance(1, 2)
         sel0 = rng.below(1000)
@@ -785,6 +988,9 @@ def gen_program(seed, idx, gates, nfuncs=None):
             s = Site()
             s.f, s.binding, s.label = f, binds[lab], lab
             s.spelled = {n: spell(rng, w, k, binds[lab][n][1], t) for n, k, t in f.params if k in ("ct", "cv")}
+            if f.meta["family"] == "tygen":
+                # a comptime block as argument inside `comptime g(..)` crashes the compiler (pinned text probe below)
+                s.spelled = {n: (("V", ("n", a_[1][2])) if a_[0] == "V" and a_[1][0] == "cblock" else a_) for n, a_ in s.spelled.items()}
             if lab in seen_labels and rng.chance(1, 2):
                 s.sels, s.nva = seen_labels[lab].sels, seen_labels[lab].nva       # same inputs: the events must be identical
             else:
@@ -797,6 +1003,12 @@ def gen_program(seed, idx, gates, nfuncs=None):
                 copies[key] = cp
                 w.add_func(cp)
             s.copy = copies[key]
+            if rng.chance(1, 3):
+                if key not in wrappers:
+                    wrappers[key] = make_wrapper(f, s.binding, f"{f.name}_w{len(wrappers)}")
+                    if wrappers[key] is not None:
+                        w.add_func(wrappers[key])
+                s.wrapper = wrappers[key]
             fsites.append(s)
         sites += fsites
         cases.append({"f": f.name, "pattern": pat, "diffs": diffs, "sites": fsites,
@@ -825,12 +1037,18 @@ def gen_program(seed, idx, gates, nfuncs=None):
                     vals[n] = mkval(rng, it, ct_, s.sels + 11 * j)
         for kind, B in order:
             pfx = f"s{c}{kind}_"
+            if f.meta["family"] == "tygen":
+                st = tygen_site(it, s, kind, B, pfx, c)
+                body += st
+                if kind == "c":
+                    body_copies_only += st
+                continue
             st = []
             args = []
             after = []
             for n, k, t in f.params:
                 if k in ("ct", "cv"):
-                    if kind == "g":
+                    if kind == "g" and s.wrapper is None:
                         args.append(s.spelled[n])
                     continue
                 ct_ = L.subst_type(t, s.binding)
@@ -847,7 +1065,7 @@ def gen_program(seed, idx, gates, nfuncs=None):
                     args.append(("E", var(pfx + "sl")))
                 else:
                     args.append(("E", vals[n]))
-            callee = (f.name, f.home) if kind == "g" else (s.copy.name, "main")
+            callee = ((f.name, f.home) if s.wrapper is None else (s.wrapper.name, "o")) if kind == "g" else (s.copy.name, "main")
             call = ("call", callee, tuple(args))
             lv = []
             if f.ret is None:
@@ -935,13 +1153,14 @@ def judge_run(prog, observed_events, model):
         c = s.index
         G, Cp, M = obs[c]["g"], obs[c]["c"], mod[c]["g"]
         fam = s.f.meta["family"]
+        mark = "|dparam" if any(n == "D" for n, _, _ in s.f.params) else ""
         d = first_diff(G, Cp)
         desc = f"{s.f.name} ({fam}, home {s.f.home}) site {c} label {s.label} binding " + binding_text(s)
         if d is not None:
             i, x, y = d
             lab = M[i][3] if i < len(M) and len(M[i]) > 3 else "extra_event"
             which = "generic" if (i < len(M) and y == M[i][:3]) else "copy" if (i < len(M) and x == M[i][:3]) else "both"
-            viol.append({"key": "generic_differs_from_copy", "sig": f"generic_differs_from_copy|{lab}|wrong={which}",
+            viol.append({"key": "generic_differs_from_copy", "sig": f"generic_differs_from_copy|{lab}|wrong={which}{mark}",
                          "what": f"{desc}: event #{i} ({lab}) of the generic call is {x}, of the substituted copy {y}, model {M[i][:3] if i < len(M) else None}",
                          "site": c})
             verdicts.append("viol")
@@ -950,7 +1169,7 @@ def judge_run(prog, observed_events, model):
         if d is not None:
             i, x, y = d
             lab = M[i][3] if i < len(M) and len(M[i]) > 3 else "extra_event"
-            viol.append({"key": "model_mismatch", "sig": f"model_mismatch|{lab}",
+            viol.append({"key": "model_mismatch", "sig": f"model_mismatch|{lab}{mark}",
                          "what": f"{desc}: generic call and copy agree but event #{i} ({lab}) is {x}, the model of the substituted copy gives {y}", "site": c})
             verdicts.append("viol")
             continue
@@ -1005,8 +1224,9 @@ def execute(d, prog, files, model):
         co = program_files(prog, copies_only=True)
         c2 = compile_retry(os.path.join(d, "co"), co)
         if c2.accepted:
-            kinds = sorted(set(k[:60] for k in c.diag_kinds()))[:3]
-            res.update(status="viol", viols=[{"key": "generic_call_rejected", "sig": "generic_call_rejected|" + "|".join(kinds),
+            kinds = sorted(set(re.sub(r"`[^`]*`", "`_`", k)[:60] for k in c.diag_kinds()))[:2]
+            fn = blame(prog, files, c.out)
+            res.update(status="viol", viols=[{"key": "generic_call_rejected", "sig": "generic_call_rejected|" + fn + "|" + "|".join(kinds),
                                               "what": f"the program is rejected but the same program with only the substituted copies is accepted: {c.diag_kinds()[:3]}",
                                               "site": None}])
         else:
@@ -1030,6 +1250,29 @@ def execute(d, prog, files, model):
         viols.append({"key": "runtime_fault", "sig": "runtime_fault|after_all_events", "what": f"all events as expected but exit rc={r.rc} sig={r.sig} {text[:2]}", "site": None})
     res.update(status="viol" if viols else "ok", viols=viols, verdicts=verdicts, log=log, obs=obs, mod=mod, rc=r.rc, sig=r.sig, out=r.out)
     return res
+
+
+def blame(prog, files, out):
+    """which generic does the first diagnostic point at: -> '<family>[|dparam]' (for the signature)"""
+    m = re.search(r"^error[^\n]*\n\s*--> at (\S+?):(\d+)", out, re.M)
+    if not m or m.group(1) not in files:
+        return "?"
+    lines = files[m.group(1)].splitlines()
+    ln = min(int(m.group(2)), len(lines)) - 1
+    name = None
+    cm = re.search(r"\b(g\d+)(?:_w\d+)?\(", lines[ln])
+    if cm:
+        name = cm.group(1)
+    else:
+        for i in range(ln, -1, -1):
+            hm = re.match(r"(g\d+)(?:_[cw]\d+)? ::", lines[i])
+            if hm:
+                name = hm.group(1)
+                break
+    for f in prog["generics"]:
+        if f.name == name:
+            return f.meta["family"] + ("|dparam" if any(n == "D" for n, _, _ in f.params) else "")
+    return "?"
 
 
 def doctor_selfcheck(res):
@@ -1094,6 +1337,11 @@ def probe_world(kind):
                   ("if", ("cpv", "B"), [("assign", acc, bin_("+", acc, lit(1)))], [("assign", acc, bin_("-", acc, lit(1)))]),
                   ("trace", 1, "i64", acc, "ints.b")], acc, 0, {"family": "ints", "feats": ["b"]})
         binds = [{"B": ("V", True, BOOL)}, {"B": ("V", False, BOOL)}, {"B": ("V", True, BOOL)}]
+    elif kind == "dparam_imported":
+        f = Func("g0", "o", [("T", "ct", None), ("D", "cv", T), ("x", "rt", T), ("base", "rt", I64)], T,
+                 [("let", "acc", T, var("x")), ("assign", acc, bin_("+", bin_("*", acc, ("cpv", "D")), ("cpv", "D"))),
+                  ("trace", 1, "i64", acc, "numi.d")], acc, 0, {"family": "numi", "feats": ["dparam"]})
+        binds = [{"T": ("T", P("i8")), "D": ("V", 100, T)}, {"T": ("T", P("i64")), "D": ("V", 100000, T)}, {"T": ("T", P("i8")), "D": ("V", 100, T)}]
     elif kind == "recursion":
         call = ("call", ("g0", "main"), (("T", T), ("E", bin_("-", var("n"), tl(1))), ("E", var("base"))))
         f = Func("g0", "main", [("T", "ct", None), ("n", "rt", T), ("base", "rt", I64)], T,
@@ -1133,7 +1381,7 @@ def probe_world(kind):
                 else:
                     ct_ = L.subst_type(t, b)
                     args.append(("E", mkval(None, it, ct_, 4) if kind != "recursion" else ("cast", ct_, lit(6))))
-            callee = ("g0", "main") if kindc == "g" else (s.copy.name, "main")
+            callee = ("g0", f.home) if kindc == "g" else (s.copy.name, "main")
             st = [("letinf", f"s{c}{kindc}_r", ("call", callee, tuple(args)))]
             lv = []
             leaves(it, it.resolve(L.subst_type(f.ret, b), {}), var(f"s{c}{kindc}_r"), lv)
@@ -1155,7 +1403,34 @@ def retarget(e, frm, to):
     return e
 
 
-PROBES = ["comptime_block", "inline_len", "bool_cparam", "recursion"]
+PROBES = ["comptime_block", "inline_len", "bool_cparam", "dparam_imported", "recursion"]
+# fixed programs (kf/<file>) with the events they must print; kept out of the bulk generator because they crash the compiler
+TEXT_PROBES = [("comptime_block_arg_in_comptime_call", "kf/C16_comptime_block_arg_in_comptime_call.capy", [("I", 1, "7")])]
+
+
+def run_text_probe(arg):
+    work, (name, rel, expect) = arg
+    text = open(os.path.join(C.VERIF, rel), encoding="utf-8").read()
+    files = {"main.capy": text}
+    d = os.path.join(work, "tprobe_" + name)
+    c = compile_retry(d, files)
+    out = {"kind": name, "files": files, "status": "ok", "viols": []}
+    if c.timed_out or c.sig in EXTERNAL_SIGNALS:
+        out.update(status="inconc", why="watchdog")
+    elif c.internal_error:
+        out.update(status="viol", viols=[{"key": "internal_error", "sig": "internal_error|" + c.panic_sig(), "site": None,
+                                          "what": f"pinned program {rel}: internal compiler error: {c.brief()[:300]}"}])
+    elif not c.accepted:
+        out.update(status="viol", viols=[{"key": "generic_call_rejected", "sig": f"generic_call_rejected|text_probe|{name}", "site": None,
+                                          "what": f"pinned program {rel} is rejected: {c.diag_kinds()[:3]}"}])
+    else:
+        r = R.link_and_run(d, c.obj)
+        got = [(t, i, v.strip()) for t, i, v in R.parse_log(r.out) if i is not None] if not r.link_failed else None
+        if got != expect:
+            out.update(status="viol", viols=[{"key": "model_mismatch", "sig": f"model_mismatch|text_probe|{name}", "site": None,
+                                              "what": f"pinned program {rel} prints {got}, expected {expect}"}])
+    shutil.rmtree(d, ignore_errors=True)
+    return out
 
 
 def run_probe(arg):
@@ -1172,10 +1447,22 @@ def run_probe(arg):
         return {"kind": kind, "status": "generr", "why": str(e), "files": files}
     c = compile_retry(d, files, cpu_s=6 if kind == "recursion" else 20)
     if c.cpu_exceeded or (c.timed_out and kind == "recursion"):
+        co = program_files(prog, copies_only=True)
+        c2 = compile_retry(os.path.join(d, "co"), co, cpu_s=6)
+        ok2 = False
+        if c2.accepted:
+            r2 = R.link_and_run(os.path.join(d, "co"), c2.obj)
+            if not r2.link_failed and r2.rc == 0:
+                got = split_events([(t, i, v) for t, i, v in R.parse_log(r2.out) if i is not None], len(prog["sites"]))[0]
+                want = split_events(model, len(prog["sites"]))[0]
+                ok2 = all([e[:3] for e in got[s.index]["c"]] == [e[:3] for e in want[s.index]["c"]] for s in prog["sites"])
+        shutil.rmtree(d, ignore_errors=True)
+        if not ok2:
+            return {"kind": kind, "status": "inconc", "files": files, "why": "the compiler exceeds its CPU limit on the probe and the copies-only program does not behave as modelled"}
         return {"kind": kind, "status": "viol", "files": files,
                 "viols": [{"key": "compiler_hang", "sig": f"compiler_hang|{kind}", "site": None,
                            "what": f"pinned probe {kind}: the compiler does not terminate (more than 6 s CPU) on a generic function that calls itself at run time; "
-                                   "the same program with only the substituted copies compiles"}]}
+                                   "the same program with only the substituted copies compiles and prints the modelled events"}]}
     res = execute(d, prog, files, model)
     res["kind"] = kind
     shutil.rmtree(d, ignore_errors=True)
@@ -1203,18 +1490,93 @@ def witness_of(res, v):
     return wit
 
 
+def run_digest(arg):
+    """run one program and reduce the result to what the driver aggregates (thorough runs keep thousands of results)"""
+    work, seed, idx, gates = arg
+    res = run_program(arg)
+    out = {"idx": idx, "inconc": None, "viols": [], "evals": 0, "cnt": {}, "sigs": [], "sample": None}
+    cnt = out["cnt"]
+
+    def bump(k, n=1):
+        cnt[k] = cnt.get(k, 0) + n
+
+    st = res["status"]
+    if st in ("generr", "inconc"):
+        out["inconc"] = f"program {idx}: {res['why']}"
+        return out
+    prog = res["prog"]
+    if st == "viol":
+        for v in res["viols"]:
+            v = dict(v)
+            v["witness"] = witness_of(res, v)
+            v["witness"]["program_index"] = idx
+            v["witness"]["seed"] = seed
+            out["viols"].append(v)
+    if "verdicts" not in res:
+        out["evals"] = 1 if st == "viol" else 0
+        return out
+    if st == "ok":
+        bump("programs_ok")
+    out["evals"] = len(res["verdicts"])
+    bump("call_sites_judged", len(res["verdicts"]))
+    bump("events_compared", sum(len(res["obs"][s.index]["g"]) for s in prog["sites"]))
+    bump("copies", len({s.copy.name for s in prog["sites"]}))
+    for s in prog["sites"]:
+        bump("sites_family_" + s.f.meta["family"])
+        if s.f.height > 0:
+            bump("nested_generic_calls_sites")
+        if s.f.home == "o":
+            bump("imported_generic_sites")
+        if s.wrapper is not None:
+            bump("sites_via_wrapper_in_imported_file")
+    for case in prog["cases"]:
+        ss = case["sites"]
+        if all(res["verdicts"][s.index] == "ok" for s in ss):
+            f = ss[0].f
+            out["sigs"].append((case["kinds"], tuple(f.meta["feats"]), case["pattern"], tuple(case["diffs"]), f.home))
+        bump("instantiations", len({binding_key(s.f, s.binding) for s in ss}))
+        for i in range(len(ss)):
+            for j in range(i + 1, len(ss)):
+                a, b = ss[i], ss[j]
+                ga = [e[:3] for e in res["obs"][a.index]["g"]]
+                gb = [e[:3] for e in res["obs"][b.index]["g"]]
+                if binding_key(a.f, a.binding) == binding_key(b.f, b.binding):
+                    if a.sels == b.sels and a.nva == b.nva:
+                        if ga == gb:
+                            bump("equal_args_same_inputs_pairs_identical")
+                        elif res["verdicts"][a.index] == "ok" and res["verdicts"][b.index] == "ok":
+                            out["viols"].append({"key": "equal_arguments_differ", "sig": "equal_arguments_differ|" + a.f.meta["family"],
+                                                 "what": f"two calls of {a.f.name} with equal comptime arguments and equal inputs print different events",
+                                                 "witness": {"files": res["files"], "sites": [a.index, b.index], "program_index": idx, "seed": seed}})
+                else:
+                    bump("conflicting_pairs")
+                    if ga != gb:
+                        bump("conflicting_pairs_outputs_differ")
+    if st == "ok" and idx % 6 == 0:
+        tr, fi = doctor_selfcheck(res)
+        bump("selfcheck_doctored_logs", tr)
+        bump("selfcheck_fired", fi)
+    if st == "ok" and idx < 80 and any(s.f.height > 0 or s.f.home == "o" for s in prog["sites"]) and len(prog["sites"]) >= 3:
+        s = prog["sites"][0]
+        em = L.Emit(prog["world"], s.f.home)
+        out["sample"] = {"generic": em.func(s.f), "copy": L.Emit(prog["world"], "main").func(s.copy), "binding": binding_text(s),
+                         "generic_events": [" ".join(map(str, e[:3])) for e in res["obs"][s.index]["g"]][:12],
+                         "copy_events": [" ".join(map(str, e[:3])) for e in res["obs"][s.index]["c"]][:12]}
+    return out
+
+
 def run(tier, seed):
     t0 = time.time()
     C.build_cli()
     C.build_rt()
     work = C.fresh_dir("C16")
-    nprog = 250 if tier == "quick" else 6000
-    probes = C.pmap(run_probe, [(work, k) for k in PROBES])
+    nprog = int(os.environ.get("VERIF_C16_PROGRAMS", "0") or 0) or (250 if tier == "quick" else 6000)    # the override is a development aid
+    probes = C.pmap(run_probe, [(work, k) for k in PROBES]) + C.pmap(run_text_probe, [(work, tp) for tp in TEXT_PROBES])
     gates = {}
     viol, inconc, notes = [], [], []
     cnt = {"programs": 0, "programs_ok": 0, "call_sites_judged": 0, "events_compared": 0, "instantiations": 0, "copies": 0,
            "equal_args_same_inputs_pairs_identical": 0, "conflicting_pairs": 0, "conflicting_pairs_outputs_differ": 0,
-           "selfcheck_doctored_logs": 0, "selfcheck_fired": 0, "nested_generic_calls_sites": 0, "imported_generic_sites": 0}
+           "selfcheck_doctored_logs": 0, "selfcheck_fired": 0, "nested_generic_calls_sites": 0, "imported_generic_sites": 0, "sites_via_wrapper_in_imported_file": 0}
     for p in probes:
         k = p["kind"]
         gates[k] = p["status"] == "ok"
@@ -1229,75 +1591,25 @@ def run(tier, seed):
             inconc.append(f"probe {k}: {p.get('why')}")
         else:
             notes.append(f"probe {k} passes: the feature is part of the bulk generator in this run")
-    results = C.pmap(run_program, [(work, seed, i, gates) for i in range(nprog)])
+    results = C.pmap(run_digest, [(work, seed, i, gates) for i in range(nprog)])
     sigs, samples = set(), []
     evals = 0
-    selfcheck_budget = 40
     fam_cnt = {}
-    for res in results:
+    for dg in results:
         cnt["programs"] += 1
-        st = res["status"]
-        if st in ("generr", "inconc"):
-            inconc.append(f"program {res['idx']}: {res['why']}")
+        if dg["inconc"]:
+            inconc.append(dg["inconc"])
             continue
-        prog = res["prog"]
-        if st == "viol":
-            for v in res["viols"]:
-                v = dict(v)
-                v["witness"] = witness_of(res, v)
-                v["witness"]["program_index"] = res["idx"]
-                v["witness"]["seed"] = seed
-                viol.append(v)
-        if "verdicts" not in res:
-            evals += 1 if st == "viol" else 0
-            continue
-        if st == "ok":
-            cnt["programs_ok"] += 1
-        evals += len(res["verdicts"])
-        cnt["call_sites_judged"] += len(res["verdicts"])
-        cnt["events_compared"] += sum(len(res["obs"][s.index]["g"]) for s in prog["sites"])
-        cnt["copies"] += len({s.copy.name for s in prog["sites"]})
-        for s in prog["sites"]:
-            fam_cnt[s.f.meta["family"]] = fam_cnt.get(s.f.meta["family"], 0) + 1
-            if s.f.height > 0:
-                cnt["nested_generic_calls_sites"] += 1
-            if s.f.home == "o":
-                cnt["imported_generic_sites"] += 1
-        for case in prog["cases"]:
-            ss = case["sites"]
-            if all(res["verdicts"][s.index] == "ok" for s in ss):
-                f = ss[0].f
-                sigs.add((case["kinds"], tuple(f.meta["feats"]), case["pattern"], tuple(case["diffs"]), f.home))
-            cnt["instantiations"] += len({binding_key(s.f, s.binding) for s in ss})
-            for i in range(len(ss)):
-                for j in range(i + 1, len(ss)):
-                    a, b = ss[i], ss[j]
-                    ga = [e[:3] for e in res["obs"][a.index]["g"]]
-                    gb = [e[:3] for e in res["obs"][b.index]["g"]]
-                    if binding_key(a.f, a.binding) == binding_key(b.f, b.binding):
-                        if a.sels == b.sels and a.nva == b.nva:
-                            if ga == gb:
-                                cnt["equal_args_same_inputs_pairs_identical"] += 1
-                            elif res["verdicts"][a.index] == "ok" and res["verdicts"][b.index] == "ok":
-                                viol.append({"key": "equal_arguments_differ", "sig": "equal_arguments_differ|" + a.f.meta["family"],
-                                             "what": f"two calls of {a.f.name} with equal comptime arguments and equal inputs print different events",
-                                             "witness": {"files": res["files"], "sites": [a.index, b.index]}})
-                    else:
-                        cnt["conflicting_pairs"] += 1
-                        if ga != gb:
-                            cnt["conflicting_pairs_outputs_differ"] += 1
-        if st == "ok" and selfcheck_budget > 0:
-            tr, fi = doctor_selfcheck(res)
-            if tr:
-                selfcheck_budget -= 1
-            cnt["selfcheck_doctored_logs"] += tr
-            cnt["selfcheck_fired"] += fi
-        if st == "ok" and len(samples) < 4 and any(s.f.height > 0 or s.f.home == "o" for s in prog["sites"]) and len(prog["sites"]) >= 3:
-            s = prog["sites"][0]
-            em = L.Emit(prog["world"], s.f.home)
-            samples.append({"generic": em.func(s.f), "copy": L.Emit(prog["world"], "main").func(s.copy), "binding": binding_text(s),
-                            "generic_events": [" ".join(map(str, e[:3])) for e in res["obs"][s.index]["g"]][:12],
-                            "copy_events": [" ".join(map(str, e[:3])) for e in res["obs"][s.index]["c"]][:12]})
+        viol += dg["viols"]
+        evals += dg["evals"]
+        for k, v in dg["cnt"].items():
+            if k.startswith("sites_family_"):
+                fam_cnt[k[len("sites_family_"):]] = fam_cnt.get(k[len("sites_family_"):], 0) + v
+            else:
+                cnt[k] = cnt.get(k, 0) + v
+        sigs.update(dg["sigs"])
+        if dg["sample"] and len(samples) < 4:
+            samples.append(dg["sample"])
     for k, v in sorted(fam_cnt.items()):
         cnt["sites_family_" + k] = v
     if cnt["selfcheck_doctored_logs"] and cnt["selfcheck_fired"] != cnt["selfcheck_doctored_logs"]:
@@ -1314,7 +1626,7 @@ def run(tier, seed):
         notes.append(f"{len(viol) - len(uniq)} further violations share a signature with a reported one")
     rep = {"evaluations": evals, "distinct_nontrivial": len(sigs), "violations": uniq, "samples": samples, "counters": cnt, "notes": notes,
            "exhaustive": False, "dropped_violations": len(viol) - len(uniq)}
-    return C.finish("C16", tier, seed, t0, "exploration", rep, ASSUME, RULE, min_evals=400 if tier == "quick" else 8000, inconclusive=inconc)
+    return C.finish("C16", tier, seed, t0, "exploration", rep, ASSUME, RULE, min_evals=int(nprog * 1.5), inconclusive=inconc)
 
 
 def replay(path):
@@ -1324,7 +1636,9 @@ def replay(path):
     C.build_rt()
     work = C.fresh_dir("C16", "replay")
     res = None
-    if wit.get("probe"):
+    if wit.get("probe") in [tp[0] for tp in TEXT_PROBES]:
+        res = run_text_probe((work, [tp for tp in TEXT_PROBES if tp[0] == wit["probe"]][0]))
+    elif wit.get("probe"):
         res = run_probe((work, wit["probe"]))
     elif "program_index" in wit:
         gates = {}
